@@ -37,8 +37,43 @@ type Built struct {
 	Cells  [][]Made
 }
 
-// Build replays the spec's construction history on t (which must be empty).
+// Build replays the spec's construction history on t (which must be empty)
+// and brings every item to its final state.
 func (s *TableSpec) Build(t tabular.Table) *Built {
+	b := s.BuildStaged(t, -1, nil)
+	b.Finalize()
+	return b
+}
+
+// Finalize mutates every item that was created in a pre-mutation state to its
+// final fields and updates the cell holding it (the documented way to make a
+// cell re-read a mutated item).
+func (b *Built) Finalize() {
+	for j := range b.Header {
+		if b.Header[j].NeedsFinalize() {
+			b.Header[j].Mutate(*b.Header[j].Spec().F)
+			hs := b.T.Headers()
+			(&hs[j]).Update()
+		}
+	}
+	rows := b.T.AllRows()
+	for i := range b.Cells {
+		for j := range b.Cells[i] {
+			if b.Cells[i][j].NeedsFinalize() {
+				b.Cells[i][j].Mutate(*b.Cells[i][j].Spec().F)
+				cs := rows[i].Cells()
+				(&cs[j]).Update()
+			}
+		}
+	}
+	b.Rows = rows
+}
+
+// BuildStaged replays the construction history; after `at` row operations
+// (0..len(Rows); negative = never) it calls mid, typically a first render of the
+// partial table through a wrapper that is used again later.  Items are left in their
+// pre-mutation state: call Finalize before the judged render.
+func (s *TableSpec) BuildStaged(t tabular.Table, at int, mid func()) *Built {
 	b := &Built{T: t, Cells: make([][]Made, len(s.Rows))}
 	hdr := func() {
 		if !s.HasHeader {
@@ -53,6 +88,9 @@ func (s *TableSpec) Build(t tabular.Table) *Built {
 		t.AddHeaders(items...)
 	}
 	for i := range s.Rows {
+		if at == i && mid != nil {
+			mid()
+		}
 		if s.HeaderAt == i {
 			hdr()
 		}
@@ -102,8 +140,16 @@ func (s *TableSpec) Build(t tabular.Table) *Built {
 			panic("gen: bad row mode")
 		}
 	}
+	if at == len(s.Rows) && mid != nil && s.HeaderAt >= len(s.Rows) {
+		// a render of the table before its (late) header is set
+		mid()
+		mid = nil
+	}
 	if s.HeaderAt >= len(s.Rows) {
 		hdr()
+	}
+	if at >= len(s.Rows) && mid != nil {
+		mid()
 	}
 	b.Rows = t.AllRows()
 	return b
